@@ -59,15 +59,23 @@ type c08World struct {
 	clpWL  []int64
 }
 
-func newC08World() *c08World {
+var c08Roles = []string{"CLPDEX", "PMTPREWARDS", "TOKENREGISTRY", "ETHBRIDGE", "ADMIN", "MARGIN", "ORACLE_ADMIN", "CLP_WHITELIST"}
+
+// the accounts of a world (without a chain)
+func newC08Accounts() *c08World {
 	w := &c08World{holder: map[string]chain.Account{}, allBut: map[string]chain.Account{}, ids: map[string]int64{}}
-	roles := []string{"CLPDEX", "PMTPREWARDS", "TOKENREGISTRY", "ETHBRIDGE", "ADMIN", "MARGIN", "ORACLE_ADMIN", "CLP_WHITELIST"}
-	for _, r := range roles {
+	for _, r := range c08Roles {
 		w.holder[r] = chain.NewAccount("holder-" + r)
 		w.allBut[r] = chain.NewAccount("allbut-" + r)
 	}
 	w.nobody = chain.NewAccount("nobody")
 	w.trader = chain.NewAccount("trader")
+	return w
+}
+
+func newC08World() *c08World {
+	w := newC08Accounts()
+	roles := c08Roles
 	w.Env = env.New(env.Opts{NUsers: 2, Tokens: []string{"ceth", "cusdc"}, Transform: func(g *chain.Genesis) {
 		funds := sdk.NewIntFromBigInt(chain.E(30))
 		accts := []chain.Account{w.nobody, w.trader}
@@ -101,7 +109,7 @@ func newC08World() *c08World {
 			cg.AddressWhitelist = wl
 			gs[clptypes.ModuleName] = app.AppCodec().MustMarshalJSON(&cg)
 			// a single oracle admin account: the ORACLE_ADMIN holder (the all-but accounts cannot hold it)
-			og := oracletypes.GenesisState{AdminAddress: w.holder["ORACLE_ADMIN"].Addr.String()}
+			og := oracletypes.GenesisState{AdminAddress: w.holder["ORACLE_ADMIN"].Addr.String(), AddressWhitelist: []string{sdk.ValAddress(w.trader.Addr).String()}}
 			gs[oracletypes.ModuleName] = app.AppCodec().MustMarshalJSON(&og)
 			return gs
 		}
@@ -188,6 +196,69 @@ func (w *c08World) build(method string, sg chain.Account) sdk.Msg {
 	return nil
 }
 
+// further well-formed payloads of the privileged messages whose handlers branch on the payload (another operation, an
+// entry that exists / does not exist, an empty list): the answer to "may this signer send it" must not depend on them
+func (w *c08World) variants(method string, sg chain.Account) []sdk.Msg {
+	s := sg.Addr.String()
+	listed := sdk.ValAddress(w.trader.Addr)
+	switch method {
+	case "admin.AddAccount":
+		return []sdk.Msg{
+			&admintypes.MsgAddAccount{Signer: s, Account: &admintypes.AdminAccount{AdminType: admintypes.AdminType_CLPDEX, AdminAddress: w.holder["CLPDEX"].Addr.String()}},
+			&admintypes.MsgAddAccount{Signer: s, Account: &admintypes.AdminAccount{AdminType: admintypes.AdminType_ADMIN, AdminAddress: s}}}
+	case "admin.RemoveAccount":
+		return []sdk.Msg{
+			&admintypes.MsgRemoveAccount{Signer: s, Account: &admintypes.AdminAccount{AdminType: admintypes.AdminType_MARGIN, AdminAddress: w.nobody.Addr.String()}},
+			&admintypes.MsgRemoveAccount{Signer: s, Account: &admintypes.AdminAccount{AdminType: admintypes.AdminType_ADMIN, AdminAddress: w.holder["ADMIN"].Addr.String()}}}
+	case "clp.DecommissionPool":
+		// (a pool that does not exist is refused for that reason before the signer is looked at: not a payload for this matrix)
+		m1 := clptypes.NewMsgDecommissionPool(sg.Addr, "ceth")
+		return []sdk.Msg{&m1}
+	case "ethbridge.UpdateWhiteListValidator":
+		m1 := ethbridgetypes.NewMsgUpdateWhiteListValidator(sg.Addr, listed, "remove")
+		m2 := ethbridgetypes.NewMsgUpdateWhiteListValidator(sg.Addr, sdk.ValAddress(w.nobody.Addr), "remove")
+		m3 := ethbridgetypes.NewMsgUpdateWhiteListValidator(sg.Addr, listed, "add")
+		m4 := ethbridgetypes.NewMsgUpdateWhiteListValidator(sg.Addr, listed, "update")
+		return []sdk.Msg{&m1, &m2, &m3, &m4}
+	case "ethbridge.SetPause":
+		return []sdk.Msg{&ethbridgetypes.MsgPause{Signer: s, IsPaused: false}}
+	case "ethbridge.SetBlacklist":
+		return []sdk.Msg{&ethbridgetypes.MsgSetBlacklist{From: s, Addresses: []string{}}, &ethbridgetypes.MsgSetBlacklist{From: s, Addresses: []string{ethAddrs[1], ethAddrs[2], ethAddrs[1]}}}
+	case "ethbridge.UpdateCethReceiverAccount":
+		m := ethbridgetypes.NewMsgUpdateCethReceiverAccount(sg.Addr, sg.Addr)
+		return []sdk.Msg{&m}
+	case "ethbridge.RescueCeth":
+		m := ethbridgetypes.NewMsgRescueCeth(sg.Addr, sg.Addr, sdk.NewInt(1))
+		return []sdk.Msg{&m}
+	case "margin.AdminClose":
+		return []sdk.Msg{&margintypes.MsgAdminClose{Signer: s, MtpAddress: w.trader.Addr.String(), Id: 1, TakeMarginFund: true},
+			&margintypes.MsgAdminClose{Signer: s, MtpAddress: w.nobody.Addr.String(), Id: 77, TakeMarginFund: false}}
+	case "margin.AdminCloseAll":
+		return []sdk.Msg{&margintypes.MsgAdminCloseAll{Signer: s, TakeMarginFund: true}}
+	case "margin.ForceClose":
+		return []sdk.Msg{&margintypes.MsgForceClose{Signer: s, MtpAddress: w.nobody.Addr.String(), Id: 77}}
+	case "margin.Whitelist":
+		return []sdk.Msg{&margintypes.MsgWhitelist{Signer: s, WhitelistedAddress: s}}
+	case "margin.Dewhitelist":
+		return []sdk.Msg{&margintypes.MsgDewhitelist{Signer: s, WhitelistedAddress: w.nobody.Addr.String()}}
+	case "margin.UpdatePools":
+		return []sdk.Msg{&margintypes.MsgUpdatePools{Signer: s, Pools: []string{}, ClosedPools: []string{"ceth"}}}
+	case "margin.UpdateRowanCollateral":
+		return []sdk.Msg{&margintypes.MsgUpdateRowanCollateral{Signer: s, RowanCollateralEnabled: true}}
+	case "tokenregistry.Deregister":
+		return []sdk.Msg{&tokenregistrytypes.MsgDeregister{From: s, Denom: "cnothing"}}
+	case "tokenregistry.Register":
+		return []sdk.Msg{&tokenregistrytypes.MsgRegister{From: s, Entry: regEntry("ceth", 1)}}
+	case "tokenregistry.SetRegistry":
+		return []sdk.Msg{&tokenregistrytypes.MsgSetRegistry{From: s, Registry: &tokenregistrytypes.Registry{}}}
+	case "clp.ModifyPmtpRates":
+		return []sdk.Msg{&clptypes.MsgModifyPmtpRates{Signer: s, EndPolicy: true}}
+	case "clp.UpdateSwapFeeParams":
+		return []sdk.Msg{&clptypes.MsgUpdateSwapFeeParamsRequest{Signer: s, DefaultSwapFeeRate: sdk.NewDecWithPrec(4, 3), TokenParams: []*clptypes.SwapFeeTokenParams{{Asset: "ceth", SwapFeeRate: sdk.NewDecWithPrec(1, 2)}}}}
+	}
+	return nil
+}
+
 // prepare the state both twins start from (pool to decommission, margin position to close)
 func (w *c08World) prepare() {
 	w.BeginBlock()
@@ -253,89 +324,105 @@ func C08(c Ctx) *report.Report {
 		if ent.Role == "NONE" || ent.Role == "MISSING" {
 			continue
 		}
-		for _, kind := range signerKinds {
-			// two identical worlds: A delivers the privileged message, B a no-op self-send by the same signer
-			wa, wb := newC08World(), newC08World()
-			wa.prepare()
-			wb.prepare()
-			var sa, sb chain.Account
-			switch kind {
-			case "none":
-				sa, sb = wa.nobody, wb.nobody
-			case "all-but-the-right-one":
-				sa, sb = wa.allBut[ent.Role], wb.allBut[ent.Role]
-			default:
-				sa, sb = wa.holder[kind], wb.holder[kind]
-			}
-			msg := wa.build(method, sa)
-			if msg == nil {
-				rep.Notes = append(rep.Notes, "no payload for "+method)
-				continue
-			}
-			res := wa.Tx(sa, msg)
-			// the reference transaction: a bank send that fails in the message (insufficient funds), so that only the
-			// ante handler's writes (fee, sequence) reach the state.  (A successful self-send is not a no-op for the
-			// IAVL commitment: rewriting an equal value bumps the node version and changes the hash.)
-			noop := banktypes.NewMsgSend(sb.Addr, wb.nobody.Addr, sdk.NewCoins(sdk.NewCoin("cusdc", sdk.NewIntFromBigInt(chain.E(40)))))
-			resB := wb.Tx(sb, noop)
-			if resB.Code == 0 {
-				panic("reference transaction unexpectedly succeeded")
-			}
-			ha, hb := wa.commitHash(), wb.commitHash()
-			unchanged := bytes.Equal(ha, hb)
-			holdsRole := kind == ent.Role
-			refused := res.Code != 0 && refusedForPermission(res.Log)
-			id++
-			desc := map[string]interface{}{"message": method, "required_role": ent.Role, "signer_kind": kind, "code": res.Code, "log": trunc(res.Log, 140), "state_unchanged": unchanged}
-			rep.CaseIndex[fmt.Sprint(id)] = desc
-			rep.Count(fmt.Sprintf("matrix.%s.%s", map[bool]string{true: "holder", false: "non-holder"}[holdsRole], okStr(res.Code == 0)))
-			// ---- monitor ----
-			if !holdsRole {
-				if res.Code == 0 {
-					rep.Violate("C08/executed-without-role/"+method, fmt.Sprintf("%s executed for a signer of kind %q", method, kind), desc)
-				} else if !unchanged {
-					rep.Violate("C08/rejected-but-state-changed/"+method, fmt.Sprintf("%s was rejected for %q but the app hash differs from a no-op", method, kind), desc)
+		stub := newC08Accounts()
+		nVar := len(stub.variants(method, stub.nobody))
+		for variant := 0; variant <= nVar; variant++ {
+			for _, kind := range signerKinds {
+				// the other payloads: no role, every role but the right one, the holder, the general administrator
+				if variant > 0 && kind != "none" && kind != "all-but-the-right-one" && kind != ent.Role && kind != "ADMIN" {
+					continue
 				}
-			} else if res.Code != 0 && refused {
-				rep.Violate("C08/role-holder-refused/"+method, fmt.Sprintf("%s refused for the holder of %s", method, ent.Role), desc)
-			}
-			// ---- case for the model ----
-			e := &env.Enc{}
-			e.I(int64(id)).I(int64(idx)).I(100)
-			// role table as seen by this signer: (role code, 100) for each x/admin role the signer holds
-			var held [][2]int64
-			oracle, wl := int64(-1), []int64{}
-			holdsR := func(r string) bool {
+				// two identical worlds: A delivers the privileged message, B a no-op self-send by the same signer
+				wa, wb := newC08World(), newC08World()
+				wa.prepare()
+				wb.prepare()
+				var sa, sb chain.Account
 				switch kind {
 				case "none":
-					return false
+					sa, sb = wa.nobody, wb.nobody
 				case "all-but-the-right-one":
-					return r != ent.Role && r != "ORACLE_ADMIN"
+					sa, sb = wa.allBut[ent.Role], wb.allBut[ent.Role]
+				default:
+					sa, sb = wa.holder[kind], wb.holder[kind]
 				}
-				return r == kind
-			}
-			for r, code := range roleCode {
-				if holdsR(r) {
-					held = append(held, [2]int64{code, 100})
+				msg := wa.build(method, sa)
+				if msg == nil {
+					rep.Notes = append(rep.Notes, "no payload for "+method)
+					continue
 				}
+				if variant > 0 {
+					vs := wa.variants(method, sa)
+					if variant > len(vs) {
+						continue
+					}
+					msg = vs[variant-1]
+					rep.Count("matrix.variant-payload")
+				}
+				res := wa.Tx(sa, msg)
+				// the reference transaction: a bank send that fails in the message (insufficient funds), so that only the
+				// ante handler's writes (fee, sequence) reach the state.  (A successful self-send is not a no-op for the
+				// IAVL commitment: rewriting an equal value bumps the node version and changes the hash.)
+				noop := banktypes.NewMsgSend(sb.Addr, wb.nobody.Addr, sdk.NewCoins(sdk.NewCoin("cusdc", sdk.NewIntFromBigInt(chain.E(40)))))
+				resB := wb.Tx(sb, noop)
+				if resB.Code == 0 {
+					panic("reference transaction unexpectedly succeeded")
+				}
+				ha, hb := wa.commitHash(), wb.commitHash()
+				unchanged := bytes.Equal(ha, hb)
+				holdsRole := kind == ent.Role
+				refused := res.Code != 0 && refusedForPermission(res.Log)
+				id++
+				desc := map[string]interface{}{"message": method, "required_role": ent.Role, "signer_kind": kind, "code": res.Code, "log": trunc(res.Log, 140), "state_unchanged": unchanged}
+				rep.CaseIndex[fmt.Sprint(id)] = desc
+				rep.Count(fmt.Sprintf("matrix.%s.%s", map[bool]string{true: "holder", false: "non-holder"}[holdsRole], okStr(res.Code == 0)))
+				// ---- monitor ----
+				if !holdsRole {
+					if res.Code == 0 {
+						rep.Violate("C08/executed-without-role/"+method, fmt.Sprintf("%s executed for a signer of kind %q", method, kind), desc)
+					} else if !unchanged {
+						rep.Violate("C08/rejected-but-state-changed/"+method, fmt.Sprintf("%s was rejected for %q but the app hash differs from a no-op", method, kind), desc)
+					}
+				} else if res.Code != 0 && refused {
+					rep.Violate("C08/role-holder-refused/"+method, fmt.Sprintf("%s refused for the holder of %s", method, ent.Role), desc)
+				}
+				// ---- case for the model ----
+				e := &env.Enc{}
+				e.I(int64(id)).I(int64(idx)).I(100)
+				// role table as seen by this signer: (role code, 100) for each x/admin role the signer holds
+				var held [][2]int64
+				oracle, wl := int64(-1), []int64{}
+				holdsR := func(r string) bool {
+					switch kind {
+					case "none":
+						return false
+					case "all-but-the-right-one":
+						return r != ent.Role && r != "ORACLE_ADMIN"
+					}
+					return r == kind
+				}
+				for r, code := range roleCode {
+					if holdsR(r) {
+						held = append(held, [2]int64{code, 100})
+					}
+				}
+				if holdsR("ORACLE_ADMIN") {
+					oracle = 100
+				}
+				if holdsR("CLP_WHITELIST") {
+					wl = append(wl, 100)
+				}
+				e.Len(len(held))
+				for _, hr := range held {
+					e.I(hr[0]).I(hr[1])
+				}
+				e.I(oracle).Len(len(wl))
+				for _, x := range wl {
+					e.I(x)
+				}
+				e.B(refused || (res.Code != 0 && !holdsRole && !refusedForPermission(res.Log) && false))
+				cases = append(cases, e.Coq())
+				rep.Sample(desc)
 			}
-			if holdsR("ORACLE_ADMIN") {
-				oracle = 100
-			}
-			if holdsR("CLP_WHITELIST") {
-				wl = append(wl, 100)
-			}
-			e.Len(len(held))
-			for _, hr := range held {
-				e.I(hr[0]).I(hr[1])
-			}
-			e.I(oracle).Len(len(wl))
-			for _, x := range wl {
-				e.I(x)
-			}
-			e.B(refused || (res.Code != 0 && !holdsRole && !refusedForPermission(res.Log) && false))
-			cases = append(cases, e.Coq())
-			rep.Sample(desc)
 		}
 	}
 	// ---- role-table histories: add / remove take effect for the very next message ----
